@@ -379,6 +379,9 @@ func (e *Exec) evalGhostBuiltin(st *State, call *ast.CallExpr, name string) Term
 			return True
 		}
 		return And(Eq(e.S.SlLen(a), e.S.SlLen(b)), e.permPred(e.S.SlArr(a), e.S.SlArr(b), e.S.SlLen(a)))
+	case "__json":
+		v := e.evalUnboxed(st, call.Args[0])
+		return e.jsonOf(v)
 	case "__visset":
 		for i := len(e.vis) - 1; i >= 0; i-- {
 			if e.vis[i].vis != nil {
@@ -954,7 +957,21 @@ func (e *Exec) ensureKey(k string, c *Contract, text string, sc *clauseScope) {
 		t := e.P.lookupType(strings.TrimSpace(strings.TrimPrefix(text, "anyptr ")), sc)
 		e.ptrKey(t)
 	case strings.HasPrefix(text, "anyghost "):
-		e.ensureKeySort(k)
+		rest := strings.TrimSpace(strings.TrimPrefix(text, "anyghost "))
+		i := strings.Index(rest, ".")
+		if i < 0 {
+			return
+		}
+		for pp := range e.P.PC {
+			if shortPkg(pp) != rest[:i] {
+				continue
+			}
+			if pkg := e.P.Pkgs[pp]; pkg != nil {
+				if fn, ok := pkg.Types.Scope().Lookup("G_" + rest[i+1:]).(*types.Func); ok {
+					e.ghostKey(pp, rest[i+1:], fn.Type().(*types.Signature).Results().At(0).Type())
+				}
+			}
+		}
 	}
 }
 
@@ -1228,4 +1245,14 @@ func (e *Exec) sumSeq(st *State, call *ast.CallExpr) Term {
 			arrSort, strings.Join(params, " "), name, argl, name, argl, valAt, name, argl))
 	}
 	return app(SInt, name, append([]Term{e.S.SlArr(s), n}, fv...)...)
+}
+
+// jsonOf: the JSON encoding of a value, as an uninterpreted function per sort (encoding/json is not
+// interpreted; decoding is assumed to be a left inverse of encoding on the same Go type).
+func (e *Exec) jsonOf(v Term) Term {
+	e.S.needBytes()
+	name := "json_" + mangle(v.Sort)
+	e.Ctx.DeclareFun(name, []string{v.Sort}, SBytes)
+	e.Assumed["encoding/json: Unmarshal(Marshal(v)) restores v for the struct types used (assumed contract on the dependency)"] = true
+	return app(SBytes, name, v)
 }
